@@ -34,12 +34,16 @@ def check_sequences(ck, td):
     if ck.thorough:
         seqs += [[1, 2, 3, 4], [2, 2, 6], [5, 1, 5], [1, 6]]
     exprs, todo = [], []
-    for kind in ("vmc", "dmc", "opt"):
+    for kind_label in ("vmc", "dmc", "opt", "dmc:feedback=0.3"):
+        kind = kind_label.split(":")[0]
+        rc.DMC_EXTRA = {"feedback": 0.3} if "feedback" in kind_label else {}
         for periodic in (False, True):
             for si, seq in enumerate(seqs):
                 if kind == "opt" and (periodic or si % 2 == 1) and not ck.thorough:
                     continue
-                inp = {"driver": kind, "periodic": periodic, "requested_totals": seq}
+                if "feedback" in kind_label and (periodic or si > 1) and not ck.thorough:
+                    continue
+                inp = {"driver": kind_label, "periodic": periodic, "requested_totals": seq}
                 fa, fb = os.path.join(td, "A.hdf5"), os.path.join(td, "B.hdf5")
                 for f in (fa, fb):
                     if os.path.exists(f):
@@ -50,7 +54,7 @@ def check_sequences(ck, td):
                             rc.run_driver(kind, fb, N, periodic)
                         rc.run_driver(kind, fa, max(seq), periodic)
                 ok, _ = ck.guarded(run, "restart", SITES[kind], inp)
-                ck.case((kind, periodic, tuple(seq)), nontrivial=len([n for n in seq if n > 0]) > 1)
+                ck.case((kind_label, periodic, tuple(seq)), nontrivial=len([n for n in seq if n > 0]) > 1)
                 if not ok:
                     continue
                 if max(seq) == 0:
@@ -84,6 +88,7 @@ def check_sequences(ck, td):
                     df = res[0]
                     if (isinstance(df, dict) and len(df) > 0 and any(len(np.atleast_1d(v)) for v in df.values())) or (isinstance(df, list) and len(df) > 0):
                         ck.violation("no_extra_work_returned_data", SITES[kind], inp, expected="no blocks run", got=str(df)[:200])
+    rc.DMC_EXTRA = {}
     vals = ck.coq_eval("calls", ["C14.Model"], exprs, scope="nat_scope")
     nmis = 0
     for (inp, col), v in zip(todo, vals):
